@@ -31,6 +31,17 @@ func timeValue(now int64) value {
 }
 
 func durationArg(v value, site string) int64 {
+	if s, ok := v.(*Sym); ok && R.cfg.DurationWitness && R.pinned == nil {
+		// abstraction (opt-in, recorded): a symbolic duration is represented by one
+		// witness per sign class instead of every value
+		pos := bvCmp("bvslt", mkConst(64, 0), to64(v))
+		R.branch(pos, "duration-sign")
+		R.markReach("abstraction:duration-witness")
+		R.abstractions++
+		bits := R.concretizeOpt(s.T, site+"-witness", true)
+		w, _ := kindWidth(s.K)
+		return sext(bits, w)
+	}
 	return concInt(v, site)
 }
 
